@@ -924,6 +924,7 @@ def _tokenize(
     readline, encoding, tolerant=False, tokenize_ioredirects=True, is_subproc=False
 ):
     lnum = parenlev = continued = 0
+    line_is_subproc = is_subproc
     numchars = "0123456789"
     contstr, needcont = "", 0
     contline = None
@@ -956,7 +957,10 @@ def _tokenize(
         except StopIteration:
             line = b""
 
-        is_subproc = is_subproc or line[:2] in {b"![", b"$[", b"$(", b"!("}
+        if parenlev == 0 and not continued and not contstr and not fstring_stack:
+            # a new logical line: subprocess mode holds for this line only (it
+            # used to stick for the rest of the input)
+            line_is_subproc = is_subproc or line[:2] in {b"![", b"$[", b"$(", b"!("}
 
         if encoding is not None:
             line = line.decode(encoding)
@@ -1286,9 +1290,9 @@ def _tokenize(
 
                 continue  # re-enter the while pos < max loop
 
-            pseudomatch = (_pseudo_re_subproc if is_subproc else _pseudo_re).match(
-                line, pos
-            )
+            pseudomatch = (
+                _pseudo_re_subproc if line_is_subproc else _pseudo_re
+            ).match(line, pos)
             if pseudomatch:  # scan for tokens
                 start, end = pseudomatch.span(1)
                 spos, epos, pos = (lnum, start), (lnum, end), end
@@ -1316,7 +1320,10 @@ def _tokenize(
                             async_def_nl = True
 
                 elif initial == "#" or (
-                    is_subproc and initial == " " and len(token) > 1 and token[1] == "#"
+                    line_is_subproc
+                    and initial == " "
+                    and len(token) > 1
+                    and token[1] == "#"
                 ):
                     assert not token.endswith("\n")
                     if stashed:
